@@ -60,7 +60,9 @@ Definition wfb (s : state) : bool :=
   nodupb k2_eqb (keys (dels (stake s))) && nodupb k2_eqb (keys (ubds (stake s))) &&
   nodupb k3_eqb (keys (reds (stake s))) &&
   forallb del_key_ok (dels (stake s)) && forallb ubd_key_ok (ubds (stake s)) &&
-  forallb red_key_ok (reds (stake s)).
+  forallb red_key_ok (reds (stake s)) &&
+  (* a delegator starting info exists only next to its delegation (distribution hooks) *)
+  forallb (fun kv : k2 * start_rec => shas k2_eqb (fst kv) (dels (stake s))) (start s).
 Definition wf (s : state) : Prop := wfb s = true.
 
 (* every unbonding / redelegation entry has its pair in the queue slice of its completion time
